@@ -65,8 +65,10 @@ void drv_c13s(int tier, unsigned long seed, const char *extra) {
           nd = (j % 4 == 0) ? 0 : (j % 4 == 1) ? 1 + (long)rnd_below(3) : (j % 4 == 2) ? cap : 1 + (long)rnd_below(cap);
           if (nd > cap) nd = cap;
           callf("mpf_get_str_n", g, (uint64_t)nd, 0); rec_free_str(last_ret.str);
+          if (nd > 0) callf("mpf_get_str_buf", g, (uint64_t)nd, 0);        /* caller buffer of exactly n_digits + 2 bytes */
           setf_any(1, (int)rnd_below(NKINDS)); callf("mpf_set", 0, 1);
           callf("mpf_get_str_n", g, (uint64_t)nd, 0); rec_free_str(last_ret.str);
+          if (nd > 0) callf("mpf_get_str_buf", g, (uint64_t)nd, 0);
           /* values that round up into a new digit: b^k - tiny */
           if (j % 6 == 0) { callf("mpf_set_ui", 0, (uint64_t)ga); callf("mpf_pow_ui", 0, 0, (uint64_t)(1 + rnd_below(6))); callf("mpf_set_d", 1, 1e-300); callf("mpf_sub", 0, 0, 1);
             callf("mpf_get_str_n", g, (uint64_t)(1 + rnd_below(cap > 4 ? 4 : cap)), 0); rec_free_str(last_ret.str); callf("mpf_get_str_n", g, (uint64_t)0, 0); rec_free_str(last_ret.str); }
